@@ -43,10 +43,14 @@ func genC06(t *rapid.T, tier string) PairCase {
 	c.StopAt = rapid.IntRange(-1, 8).Draw(t, "stopat")
 	c.StopErr = rapid.Bool().Draw(t, "stoperr")
 	c.StopKeep = rapid.Bool().Draw(t, "stopkeep")
+	c.StopErrKind = rapid.SampledFrom([]int{0, 0, 1, 2, 3}).Draw(t, "stoperrkind")
 	return c
 }
 
 var errStop = errors.New("harness: callback error")
+
+// stopErrs are the errors a callback fails with (PairCase.StopErrKind).
+var stopErrs = []error{errStop, mast.ErrNoMoreDiffs, fmt.Errorf("harness: inner cursor: %w", mast.ErrNoMoreDiffs), mast.ErrIterDone}
 
 func runC06(c PairCase, o *run.Obs) error {
 	p, ok := buildPair(c, o)
@@ -82,6 +86,13 @@ func runC06(c PairCase, o *run.Obs) error {
 		}
 		if e.Kind != "remove" && !core.EqualVal(newV, val(e.New)) {
 			return fmt.Errorf("%s: diff entry #%d (%s %v) carries new value %#v, expected %#v", desc, i, kind, key, newV, val(e.New))
+		}
+		// a one-sided report has no value on the side where the key is absent (it must not carry another key's value)
+		if e.Kind == "add" && oldV != nil {
+			return fmt.Errorf("%s: diff entry #%d reports %v as added but carries an old value %#v; the key is not in the old tree", desc, i, key, oldV)
+		}
+		if e.Kind == "remove" && newV != nil {
+			return fmt.Errorf("%s: diff entry #%d reports %v as removed but carries a new value %#v; the key is not in the new tree", desc, i, key, newV)
 		}
 		return nil
 	}
@@ -147,7 +158,7 @@ func runC06(c PairCase, o *run.Obs) error {
 				calls++
 				if calls-1 == c.StopAt {
 					if c.StopErr {
-						return c.StopKeep, errStop
+						return c.StopKeep, stopErrs[c.StopErrKind%len(stopErrs)]
 					}
 					return false, nil
 				}
@@ -158,8 +169,8 @@ func runC06(c PairCase, o *run.Obs) error {
 			return fmt.Errorf("%s: callback asked to stop at entry %d (err=%v) but was invoked %d times", desc, c.StopAt, c.StopErr, calls)
 		}
 		if c.StopErr {
-			if !errors.Is(err, errStop) {
-				return fmt.Errorf("%s: callback returned an error at entry %d but DiffIter returned %v", desc, c.StopAt, err)
+			if se := stopErrs[c.StopErrKind%len(stopErrs)]; !errors.Is(err, se) {
+				return fmt.Errorf("%s: callback returned the error %q at entry %d but DiffIter returned %v", desc, se, c.StopAt, err)
 			}
 		} else if err != nil {
 			return fmt.Errorf("%s: callback returned keepGoing=false at entry %d but DiffIter returned error %v", desc, c.StopAt, err)
